@@ -309,18 +309,28 @@ def to_smt2_ground(hyps, goal, extra_ground=()):
     return s.to_smt2()
 
 
+_QFREE = set()      # ids of terms known to be quantifier free (terms are hash-consed; kept alive by the path conditions)
+_QKEEP = []
+
+
 def _has_quant(e):
+    if e.get_id() in _QFREE:
+        return False
     stack = [e]
     seen = set()
     while stack:
         t = stack.pop()
-        if t.get_id() in seen:
+        i = t.get_id()
+        if i in seen or i in _QFREE:
             continue
-        seen.add(t.get_id())
+        seen.add(i)
         if z3.is_quantifier(t):
             return True
         if z3.is_app(t):
             stack.extend(t.children())
+    if len(_QFREE) < 2000000:
+        _QFREE.update(seen)
+        _QKEEP.append(e)        # keep the term alive so that its id is not reused
     return False
 
 
